@@ -134,6 +134,12 @@ class Sim:
                         submitted.append(j)
                     elif self.rem[j]:
                         blocked.append((j, set(self.rem[j])))
+            # try-add-blocked: a blocked job goes into the same batch as all of its remaining blockers
+            if rng.random() < .5:
+                for j, by in list(blocked):
+                    if by <= set(submitted) and rng.random() < .7:
+                        submitted.append(j)
+                        blocked.remove((j, by))
         if submitted:
             self.hpc = self.hpc + [self.next_hpc]
             self.next_hpc += 1
@@ -157,6 +163,10 @@ class Sim:
         if not self.complete and (alldone or (nothing_active and (self.canceled or rng.random() < .1))):
             self.emit({"k": "markComplete", "h": h})
             self.complete = True
+            if rng.random() < .12:
+                # a second mark_complete: AssertionError under the lock
+                self.emit({"k": "markComplete", "h": h})
+                self.marker_left()
 
     def node_end(self):
         """a compute node finishes its batch: load+promote, complete_hpc_job_id, round, demote"""
